@@ -21,11 +21,12 @@ let parse_ops (s : string) : op list =
       let o = match c with
         | 'P' -> Pause | 'R' -> Resume | 'E' -> DeliverDisc
         | 'f' -> Disc (true, true, []) | 'i' -> Disc (false, true, [])
+        | 's' -> Submit (true, [])
         | 'S' | 'F' | 'I' ->
           incr pos; (* '(' *)
           let cb = ops () in
           incr pos; (* ')' *)
-          (match c with 'S' -> Submit cb | 'F' -> Disc (true, false, cb) | _ -> Disc (false, false, cb))
+          (match c with 'S' -> Submit (false, cb) | 'F' -> Disc (true, false, cb) | _ -> Disc (false, false, cb))
         | 'D' ->
           let e = String.index_from s !pos ';' in
           let r = parse_reply (String.sub s !pos (e - !pos)) in
@@ -77,7 +78,7 @@ let int_s (s : st) =
 let count_ops (l : op list) =
   let rec go d l = List.fold_left (fun (n, re, dl) o ->
       match o with
-      | Submit cb | Disc (_, _, cb) -> let (n', re', dl') = go (d + 1) cb in (n + 1 + n', re || re' || (d > 0), dl || dl')
+      | Submit (_, cb) | Disc (_, _, cb) -> let (n', re', dl') = go (d + 1) cb in (n + 1 + n', re || re' || (d > 0), dl || dl')
       | Deliver _ | DeliverDisc -> (n + 1, re, dl || d > 0)
       | _ -> (n + 1, re || (d > 0), dl)) (0, false, false) l in
   go 0 l
@@ -116,7 +117,7 @@ let handle (p : string) : string =
     Printf.sprintf "t=%s;i=%s;conc=%d;ps=%d;dup=%d;ooo=%d;bad=%d;lost=%d;rj=%d;dv=%d;comp=%s%s%s;class=%s"
       (String.concat "/" (List.rev !tr)) (String.concat "/" (List.rev !it))
       (int_of_n fin.g_conc) (int_of_n fin.g_psends) (int_of_nat (dups done_)) ooo
-      (int_of_nat (bad_data done_)) (int_of_nat (lost fin)) (int_of_n fin.g_rj) (int_of_nat (dv_of fin)) (comps_s done_)
+      (int_of_nat (bad_data done_)) (int_of_nat (lost fin)) (int_of_n fin.g_rj) (int_of_nat (dv_of fin)) (comps_s (List.filter (fun c -> not (List.mem c.c_id fin.s_qnulls)) done_))
       (if !oof then ";oof=1" else "") (if fin.g_fatal then ";fatal=1" else "") cls
   | _ -> "bad-payload"
 let () = vh_run handle
